@@ -201,6 +201,12 @@ def machineStep (legacy : Bool) (s : Option ConnHb.St) (toks : List String) : Op
     -- `bound` is the effective capacity of the queues
     | some cm, some b => (some { c := Conn.init cm (max b 1) legacy }, ["ok"])
     | _, _ => (s, ["bad-op"])
+  -- `init CM B HIGH LOW`: the water marks belong to `run_io_loop`, which this machine does not run
+  -- (dereg / rereg are explicit operations): a single handler run does not depend on them
+  | ["init", cm, b, _high, _low], _ =>
+    match cm.toNat?, b.toNat? with
+    | some cm, some b => (some { c := Conn.init cm (max b 1) legacy }, ["ok"])
+    | _, _ => (s, ["bad-op"])
   | "decl" :: h :: dc :: df :: rest, some st =>
     match fromHex h, fromHex dc, fromHex df with
     | some bytes, some dc, some df =>
@@ -238,6 +244,16 @@ def machineStep (legacy : Bool) (s : Option ConnHb.St) (toks : List String) : Op
       | _ => (some st1, ioLines out)
     | none =>
       match parseClientOp toks with
+      | some (.recv label cl) =>
+        -- the probe keeps consumer queues in a map by label: storing a second receiver under a label
+        -- that is in use drops the first one (its consumer's queue loses its client end)
+        let headIsConsumeOk := match lookupS label st.c.handles with
+          | some lid => match (getLink st.c lid).replies with
+            | .consumeOk _ _ :: _ => true
+            | _ => false
+          | none => false
+        let st0 := if headIsConsumeOk && (lookupS cl st.c.consLabels).isSome then (ConnHb.clientStep st (.dropCons cl)).1 else st
+        let (st1, out) := ConnHb.clientStep st0 (.recv label cl); (some st1, [clientLine out])
       | some o => let (st1, out) := ConnHb.clientStep st o; (some st1, [clientLine out])
       | none => (s, ["bad-op"])
   | _, _ => (s, ["bad-op"])
